@@ -73,6 +73,8 @@ macro_rules! contract_vt {
 pub struct Instance {
     pub vt: &'static ContractVt,
     pub store: MemStore,
+    /// chain-level (migration) admin named at instantiation, as WasmQuery::ContractInfo reports it
+    pub wasm_admin: Option<String>,
 }
 
 /// One dispatched (sub-)message, as seen by the kernel.
@@ -396,11 +398,11 @@ impl World {
                     None => SystemResult::Err(SystemError::NoSuchContract {
                         addr: contract_addr,
                     }),
-                    Some(_) => {
+                    Some(inst) => {
                         let resp = ContractInfoResponse::new(
                             1,
                             Addr::unchecked("creator"),
-                            None,
+                            inst.wasm_admin.as_ref().map(Addr::unchecked),
                             false,
                             None,
                         );
@@ -489,6 +491,14 @@ impl World {
     // ---------------------------------------------------------------- transactions
 
     /// Install a contract instance at a chosen address and run its real `instantiate`.
+    /// name the chain-level (migration) admin of an instantiated contract (the optional `admin` of
+    /// MsgInstantiateContract); it has no authority inside the contract
+    pub fn set_wasm_admin(&mut self, address: &str, admin: Option<&str>) {
+        if let Some(inst) = self.contracts.get_mut(address) {
+            inst.wasm_admin = admin.map(|a| a.to_string());
+        }
+    }
+
     pub fn instantiate(
         &mut self,
         vt: &'static ContractVt,
@@ -508,6 +518,7 @@ impl World {
                 Instance {
                     vt,
                     store: MemStore::new(),
+                    wasm_admin: None,
                 },
             );
             if !funds.is_empty() {
